@@ -3,6 +3,7 @@ import AC.Drv.C02
 import AC.Drv.C03
 import AC.Drv.C04
 import AC.Drv.C05
+import AC.Drv.C06
 import AC.Drv.C07
 import AC.Drv.C08
 import AC.Drv.C09
@@ -30,6 +31,7 @@ def dispatch (line : String) : String :=
       | "c16" => handleC16 f
       | "c05" => handleC05 f
       | "c17" => handleC17 f
+      | "c06" => handleC06 f
       | "c07" => handleC07 f
       | "c08" => handleC08 f
       | "c09" => handleC09 f
